@@ -3,7 +3,7 @@
 One helper call, assignment or deletion (copy-on-write AND _inplace=True, symbolic) on a template instance built from symbolic leaves; arguments conforming and
 non-conforming, callbacks that raise or return ill-typed values, missing indices/keys, unknown keywords; afterwards every managed
 attribute of receiver and result (recursively) is missing or conforms (independent reference of C15); ill-typed arguments must be refused."""
-from vf.specops import K2_OPS, K2_SET_OPS, K3_OPS, K5_OPS
+from vf.specops import K2_OPS, K2_SET_OPS, K3_OPS, K4_OPS, K5_OPS
 from vf.stepcheck import K1_MATRIX, make, warm
 from vf.sym import Ob
 
@@ -29,6 +29,11 @@ def matrix(tier):
     for opname in K3_OPS:
         for attr in ("inner", "inner2"):
             out.append(("K3", opname, attr, True))
+    for opname in K4_OPS:
+        if PROP == "C01" and opname.startswith("setattr"):
+            continue
+        for conform in (True, False):
+            out.append(("K4", opname, None, conform))
     for opname in K5_OPS:
         out.append(("K5", opname, None, True))
     return out
